@@ -373,6 +373,15 @@ fn hammer(em: &mut Emit, nthreads: usize, iters: usize, round: u64) {
             format!("'{}'.contains('{}')", format!("long literal number {} of the hammer round, padded to be long", t), t),
             format!("b'{}' + b'{}'", "ab".repeat(10 + t), t),
             format!("int('{}') + uint('{}') == {}u ? {} : -1", t, t, 2 * t, t),
+            // long lists of the same length in every family, searched for an element only this
+            // family's list holds and for one only the next family's holds
+            format!("{} in [{}]", t * 1000 + 7, (0..40).map(|i| format!("{}", t * 1000 + i)).collect::<Vec<_>>().join(", ")),
+            format!("{} in [{}]", (t + 1) * 1000 + 7, (0..40).map(|i| format!("{}", t * 1000 + i)).collect::<Vec<_>>().join(", ")),
+            format!("[{}].contains('w{}_9')", (0..36).map(|i| format!("'w{}_{}'", t, i)).collect::<Vec<_>>().join(", "), t),
+            format!("[{}].contains('w{}_9')", (0..36).map(|i| format!("'w{}_{}'", t, i)).collect::<Vec<_>>().join(", "), t + 1),
+            // a dozen patterns of its own per family: more distinct patterns in play than any small cache holds
+            format!("[{}].filter(p, 'z{}_5 z{}_11'.matches(p)).size()", (0..12).map(|j| format!("'z{}_{}'", t, j)).collect::<Vec<_>>().join(", "), t, t),
+            format!("[{}].map(p, 'z{}_3'.matches(p))", (0..12).map(|j| format!("'z{}_{}'", (t + 5) % 16, j)).collect::<Vec<_>>().join(", "), t),
         ]
     };
     let fams: Vec<Vec<String>> = (0..nthreads).map(family).collect();
